@@ -302,6 +302,7 @@ theorem drain_step (s : PoolSt) (st : PStep) (h : DrainInv s) : DrainInv (Pool.s
       rcases mem_of_mem_replaceFirst _ _ _ _ hm with e | e
       · simp at e
       · exact hterm e
+  | idleGap => exact ⟨hacct, hclean, hsorted, hterm⟩
   | drop =>
     have hacc : s.acc = .accepting := by simpa [Pool.enabled] using hen
     have hc := hclean (by rw [hacc]; simp)
